@@ -61,6 +61,21 @@ func inRange(ti typeInfo, d dpt.Datapoint) (bool, string) {
 		if !validDate(y, m, dd) {
 			return false, fmt.Sprintf("%04d-%02d-%02d is not a calendar date within 1990..2089", y, m, dd)
 		}
+	case 16:
+		// 14 characters of the type's character set: ASCII (16.000) or ISO 8859-1 (16.001)
+		max := rune(0x7f)
+		if ti.Sub == 1 {
+			max = 0xff
+		}
+		rs := []rune(v.String())
+		if len(rs) > 14 {
+			return false, fmt.Sprintf("%d characters, the format holds 14", len(rs))
+		}
+		for _, r := range rs {
+			if r > max || r == 0 {
+				return false, fmt.Sprintf("character U+%04X is outside the type's character set (or NUL inside the string)", r)
+			}
+		}
 	case 17:
 		if v.Uint() > 63 {
 			return false, fmt.Sprintf("scene number %d is not below 64", v.Uint())
